@@ -145,7 +145,13 @@ func (c *FnCtx) dispatchClosure(fr *Frame, st *State, fv Val, ft types.Type, arg
 		bs.guard = c.sc.Define("g", sBool, And(st.guard, cond))
 		var binds []Val
 		for k, v := range f.FreeVars {
-			binds = append(binds, Val{T: v.Type(), E: c.cloBind(f, k, fv.E)})
+			b := Val{T: v.Type(), E: c.cloBind(f, k, fv.E)}
+			if _, isPtr := v.Type().Underlying().(*types.Pointer); isPtr {
+				// captured variables live in cells that were allocated when the closure was made
+				c.assume(bs, "(and (> "+b.E+" 0) (< "+b.E+" "+bs.alloc+"))")
+				c.nonNil[b.E] = true
+			}
+			binds = append(binds, b)
 		}
 		r := c.callFunc(fr, bs, f, binds, args, pos)
 		brs = append(brs, branch{bs, r})
